@@ -25,6 +25,16 @@ build() {
   rsync -a --exclude .git "$REPO"/ "$SCR/repo/" || { echo "HARNESS-TROUBLE: cannot copy $REPO" >&2; exit 2; }
   mkdir -p "$SCR/repo/verifsim"
   cp "$VERIF/instrument/verifsim.go.txt" "$SCR/repo/verifsim/verifsim.go"
+  # the process-environment seam: every environment variable the tree's non-test code reads by name (none at the
+  # pinned commit); the simulators set a seeded subset around a share of their cases
+  VERIF_ENVNAMES="$( {
+      grep -rhoE --include='*.go' --exclude='*_test.go' '(Getenv|LookupEnv)\("[A-Za-z_][A-Za-z0-9_]*"\)' "$SCR/repo" 2>/dev/null | sed -E 's/.*\("([^"]+)"\)/\1/'
+      # ... and named string constants / variables passed instead of a literal
+      for id in $(grep -rhoE --include='*.go' --exclude='*_test.go' '(Getenv|LookupEnv)\([A-Za-z_][A-Za-z0-9_.]*\)' "$SCR/repo" 2>/dev/null | sed -E 's/.*\(([A-Za-z0-9_.]*\.)?([A-Za-z_][A-Za-z0-9_]*)\)/\2/' | sort -u); do
+        grep -rhoE --include='*.go' --exclude='*_test.go' "\\b$id[[:space:]]*(string[[:space:]]*)?=[[:space:]]*\"[A-Za-z_][A-Za-z0-9_]*\"" "$SCR/repo" 2>/dev/null | sed -E 's/.*"([^"]+)"/\1/'
+      done
+    } | sort -u | paste -sd, - )"
+  export VERIF_ENVNAMES
   if [ "$instr" = 1 ]; then
     cp -a "$SCR/repo" "$SCR/repo-plain"
     (cd "$VERIF/instrument" && go build -trimpath -o "$SCR/instrument" .) || { echo "HARNESS-TROUBLE: instrumenter does not build" >&2; exit 2; }
